@@ -36,11 +36,21 @@ INCREMENTAL_TIMEOUT_MS = 1000
 
 
 def _conjuncts(t):
+    """top-level conjuncts, looking through double negation and negated disjunctions"""
     if z3.is_and(t):
         out = []
         for c in t.children():
             out.extend(_conjuncts(c))
         return out
+    if z3.is_not(t):
+        x = t.arg(0)
+        if z3.is_not(x):
+            return _conjuncts(x.arg(0))
+        if z3.is_or(x):
+            out = []
+            for c in x.children():
+                out.extend(_conjuncts(z3.Not(c)))
+            return out
     return [t]
 
 
